@@ -75,6 +75,7 @@ fn p1_alphabet(n: usize, tier: Tier) -> Vec<Dev> {
     }
     d.extend(crate::devs::rich_generic_devs(true));
     d.extend(crate::devs::context_devs());
+    d.extend(crate::devs::rare_shape_devs(n, true));
     d.extend(crate::devs::syntax_devs(true, false, true, false));
     d
 }
@@ -149,7 +150,7 @@ pub fn check_p1(ctx: &mut Ctx, obs: Vec<(usize, Result<(String, Vec<(String, Str
 // P2
 // ---------------------------------------------------------------------------------------------
 
-const FORMS: [&str; 5] = ["", ":>4", ":03", ":?", ":<5"];
+const FORMS: [&str; 6] = ["", ":>4", ":03", ":?", ":<5", "::>3"];
 
 /// all sequences over `alphabet` of length 1..=lmax
 fn seqs(alphabet: usize, lmax: usize) -> Vec<Vec<usize>> {
